@@ -36,11 +36,13 @@ type Features struct {
 	ElemAliasing    bool // let x = l[i] / scalar variables stored into lists and mutated afterwards
 	CompoundOnPlace bool // compound assignment on list elements / fields
 	NullLiteral     bool
+	Singletons      bool
+	Triggers        bool
 }
 
 // AllFeatures enables everything.
 func AllFeatures() Features {
-	return Features{true, true, true, true, true, true, true, true, true, true, true, true, true, true, true, true, true, true, true, true, true, true, true, true, true, true}
+	return Features{true, true, true, true, true, true, true, true, true, true, true, true, true, true, true, true, true, true, true, true, true, true, true, true, true, true, true, true}
 }
 
 type varInfo struct {
@@ -66,7 +68,13 @@ type Gen struct {
 	loopDepth int
 	inFn      *genFn
 	inTry     int
-	budget    int // remaining statement budget
+	// loopInTry: the innermost enclosing loop lies outside of the innermost enclosing try (so that
+	// break/continue leave the try block); maintained by loopStmt/tryStmt.
+	loopInTry  bool
+	thrower    string // name of a helper function that may throw ("" = none)
+	closureN   int
+	hasTrigger bool
+	budget     int // remaining statement budget
 	// Cover collects construct names used in the program.
 	Cover map[string]bool
 }
@@ -343,6 +351,13 @@ func (g *Gen) expr(t *Type, depth int) Expr {
 			if e := g.fieldExpr(Int); e != nil {
 				return e
 			}
+			if g.F.Options {
+				if vs := g.varsOf(OptOf(Int)); len(vs) > 0 {
+					v := fw.Pick(g.R, vs)
+					g.cover("opt.unwrap_or")
+					return MCall{Recv: Var{v.name, v.t}, Name: "unwrap_or", Args: []Expr{g.pureExpr(Int, d)}, Ret: Int}
+				}
+			}
 		}
 		return Infix{"+", g.expr(Int, d), g.expr(Int, d)}
 	case TFloat:
@@ -428,6 +443,14 @@ func (g *Gen) expr(t *Type, depth int) Expr {
 			if e := g.callExpr(Bool, d); e != nil {
 				return e
 			}
+			if g.F.Options {
+				for _, v := range g.visible() {
+					if v.t.K == TOpt {
+						g.cover("opt.is_some")
+						return MCall{Recv: Var{v.name, v.t}, Name: fw.Pick(g.R, []string{"is_some", "is_none"}), Ret: Bool}
+					}
+				}
+			}
 		}
 		return Infix{"<", g.expr(Int, d), g.expr(Int, d)}
 	case TStr:
@@ -471,6 +494,10 @@ func (g *Gen) expr(t *Type, depth int) Expr {
 		g.cover("obj-literal")
 		return o
 	case TOpt:
+		if g.R.Chance(1, 4) {
+			g.cover("none")
+			return NoneLit{t}
+		}
 		g.cover("some")
 		return Prefix{"?", g.expr(t.Elem, d)}
 	}
@@ -781,20 +808,25 @@ func (g *Gen) stmt(d int) []Stmt {
 		return g.loopStmt(d)
 	case r < 15 && g.F.Exceptions && d > 0:
 		return g.tryStmt(d)
-	case r < 16 && g.loopDepth > 0 && g.inTry == 0:
+	case r < 16 && g.loopDepth > 0 && (g.inTry == 0 || (g.F.ExitFromTry && g.loopInTry)):
 		g.cover("loop-exit")
 		ex := Stmt(Break{})
 		if g.R.Bool() {
 			ex = Continue{}
 		}
 		return []Stmt{ExprStmt{If{Cond: g.expr(Bool, d), Then: &Block{Stmts: []Stmt{g.trace(), ex}}}}}
-	case r < 17 && g.inFn != nil && g.inTry == 0 && g.R.Chance(1, 2):
+	case r < 17 && g.inFn != nil && (g.inTry == 0 || g.F.ExitFromTry) && g.R.Chance(1, 2):
 		g.cover("early-return")
 		return []Stmt{ExprStmt{If{Cond: g.expr(Bool, d), Then: &Block{Stmts: []Stmt{g.trace(), Return{g.expr(g.inFn.ret, d)}}}}}}
 	case r < 18 && g.F.MatchExpr:
 		g.cover("match-stmt")
 		m := g.matchExpr(Int, d).(Match)
 		return []Stmt{Let{Name: g.declFresh(Int), V: m}}
+	case r < 19 && g.hasTrigger && g.R.Chance(1, 2):
+		g.cover("trigger-stmt")
+		return []Stmt{Trigger{Callback: "cb", Conn: "at", Name: "minute", Args: []Expr{g.pureExpr(Int, d)}}}
+	case r < 19 && g.F.Closures && g.R.Chance(1, 2):
+		return g.closureStmts(d)
 	case r < 19 && g.F.Funcs:
 		if e := g.callExpr(fw.Pick(g.R, g.scalarTypes()), d); e != nil {
 			name := g.fresh()
@@ -805,6 +837,29 @@ func (g *Gen) stmt(d int) []Stmt {
 	return []Stmt{g.letStmt(d)}
 }
 
+// closureStmts: a non-capturing function literal bound to a local and called.
+func (g *Gen) closureStmts(d int) []Stmt {
+	g.cover("closure")
+	g.closureN++
+	name := fmt.Sprintf("cl%s", letters(g.closureN+g.nameN))
+	pt := fw.Pick(g.R, g.scalarTypes())
+	rt := fw.Pick(g.R, g.scalarTypes())
+	saved := g.scopes
+	savedFn, savedLoop, savedTry := g.inFn, g.loopDepth, g.inTry
+	// closure bodies see module globals and their parameter only
+	g.scopes = [][]varInfo{saved[0], {{"q", pt}}}
+	gf := genFn{name: name, ret: rt}
+	g.inFn, g.loopDepth, g.inTry = &gf, 0, 0
+	body := &Block{Tail: g.expr(rt, d-1)}
+	g.inFn, g.loopDepth, g.inTry = savedFn, savedLoop, savedTry
+	g.scopes = saved
+	lit := FnLit{Params: []Param{{Name: "q", T: pt}}, Ret: rt, Body: body}
+	arg := g.pureExpr(pt, d-1)
+	res := g.fresh()
+	g.declare(res, rt)
+	return []Stmt{Let{Name: name, V: lit}, Let{Name: res, V: Call{Fn: name, Args: []Expr{arg}, Ret: rt}}}
+}
+
 func (g *Gen) declFresh(t *Type) string {
 	n := g.fresh()
 	g.declare(n, t)
@@ -813,7 +868,9 @@ func (g *Gen) declFresh(t *Type) string {
 
 func (g *Gen) loopStmt(d int) []Stmt {
 	g.loopDepth++
-	defer func() { g.loopDepth-- }()
+	savedLIT := g.loopInTry
+	g.loopInTry = false
+	defer func() { g.loopDepth--; g.loopInTry = savedLIT }()
 	k := int64(1 + g.R.Intn(4))
 	switch g.R.Intn(4) {
 	case 0: // while with counter
@@ -870,6 +927,8 @@ func (g *Gen) loopStmt(d int) []Stmt {
 func (g *Gen) tryStmt(d int) []Stmt {
 	g.cover("try")
 	g.inTry++
+	savedLIT := g.loopInTry
+	g.loopInTry = g.loopDepth > 0
 	g.pushScope()
 	body := &Block{}
 	body.Stmts = append(body.Stmts, g.stmts(1+g.R.Intn(2), d-1)...)
@@ -879,12 +938,20 @@ func (g *Gen) tryStmt(d int) []Stmt {
 		thrower = ExprStmt{Builtin{"throw", []Expr{g.pureExpr(fw.Pick(g.R, []*Type{Int, Str, Bool}), d-1)}}}
 		g.cover("throw-always")
 	}
+	if g.F.ExcAcrossCalls && g.thrower != "" && g.R.Chance(1, 2) {
+		// the exception is raised one or two frames below the handler
+		g.cover("throw-across-call")
+		arg := g.pureExpr(Int, d-1)
+		v := g.declFresh(Int)
+		thrower = Let{Name: v, V: Call{Fn: g.thrower, Args: []Expr{arg}, Ret: Int}}
+	}
 	body.Stmts = append(body.Stmts, thrower)
-	if _, always := thrower.(ExprStmt).X.(Builtin); !always {
+	if es, isES := thrower.(ExprStmt); !isES || func() bool { _, always := es.X.(Builtin); return !always }() {
 		body.Stmts = append(body.Stmts, g.stmts(1, d-1)...)
 	}
 	g.popScope()
 	g.inTry--
+	g.loopInTry = savedLIT
 	// The catch variable may shadow a visible variable on purpose. Inside the handler it is
 	// declared with an opaque type so that no generated expression reads or assigns it (its
 	// line/column fields are not predicted by the model).
@@ -912,6 +979,37 @@ func (g *Gen) Program(size int) *Program {
 			mod.Globals = append(mod.Globals, Global{Name: name, V: g.literal(t)})
 			g.declare(name, t)
 			g.cover("global")
+		}
+	}
+	if g.F.Singletons && g.R.Chance(1, 4) {
+		g.cover("singleton")
+		mod.Singletons = append(mod.Singletons, Singleton{Name: "$S", T: Int})
+		// a function extracting the singleton; callers do not pass it
+		body := &Block{Stmts: []Stmt{ExprStmt{Builtin{"println", []Expr{StrLit{"sget"}, Var{"sv", Int}, Var{"k", Int}}}}}, Tail: Infix{"+", Var{"sv", Int}, Var{"k", Int}}}
+		mod.Funcs = append(mod.Funcs, &Func{Name: "sget", Params: []Param{{Name: "sv", T: Int, Singleton: "$S"}, {Name: "k", T: Int}}, Ret: Int, Body: body})
+		g.fns = append(g.fns, genFn{name: "sget", params: []Param{{Name: "k", T: Int}}, ret: Int})
+	}
+	if g.F.Triggers && g.R.Chance(1, 5) {
+		g.cover("trigger")
+		mod.Imports = append(mod.Imports, Import{Items: []string{"trigger minute"}, Module: "triggers"})
+		mod.Funcs = append(mod.Funcs, &Func{Name: "cb", Event: true, Params: []Param{{Name: "elapsed", T: Int}}, Ret: Null, Body: &Block{}})
+		g.hasTrigger = true
+	}
+	if g.F.ExcAcrossCalls && g.F.Exceptions && g.R.Chance(1, 2) {
+		g.cover("thrower-fn")
+		x := Var{"x", Int}
+		thr := &Func{Name: "thr", Params: []Param{{Name: "x", T: Int}}, Ret: Int, Body: &Block{
+			Stmts: []Stmt{ExprStmt{If{Cond: Infix{"==", Infix{"%", x, IntLit{3}}, IntLit{0}}, Then: &Block{Stmts: []Stmt{ExprStmt{Builtin{"throw", []Expr{Infix{"+", StrLit{"thr"}, MCall{Recv: x, Name: "to_string", Ret: Str}}}}}}}}}},
+			Tail:  Infix{"+", x, IntLit{1}}}}
+		mod.Funcs = append(mod.Funcs, thr)
+		g.thrower = "thr"
+		if g.R.Bool() {
+			loc := Var{"y", Int}
+			thr2 := &Func{Name: "thrb", Params: []Param{{Name: "x", T: Int}}, Ret: Int, Body: &Block{
+				Stmts: []Stmt{Let{Name: "y", V: Infix{"*", x, IntLit{2}}}, Let{Name: "z", V: Call{Fn: "thr", Args: []Expr{loc}, Ret: Int}}},
+				Tail:  Infix{"-", Var{"z", Int}, loc}}}
+			mod.Funcs = append(mod.Funcs, thr2)
+			g.thrower = "thrb"
 		}
 	}
 	if g.F.Funcs {
